@@ -44,6 +44,63 @@ CLAIMS = {
             'own writes are Good (guarantee); lock scopes and per-call eviction tables are regenerated facts. Real threads are run under all 2-thread '
             'schedules of bounded length with a lock-checking proxy table.',
             'granularity of switches = user-function calls and cache get/set; pre-emption inside pylru/dict under the lock and tarn lockers not modelled'),
+
+    'C02': ('Theorems on a name-level model of layer stacks (expressions over raw inputs; finite / co-finite name sets with the REGENERATED AntiSet '
+            'operators): connecting is substitution of the left outputs into the right expressions; a later definition replaces an earlier one, a name that '
+            'is neither defined nor inherited disappears, an inherited one passes through unchanged. Random stacks (Source / Transform with parameters, '
+            'inherit lists / True / exclude, persistent fields, caches, Apply, nested chains) are built on the real code and every exposed field is compared.',
+            'the model is hand-written from containers/base.py and reversible.py and validated by the correspondence, not regenerated; '
+            'values are symbolic terms (the engine side of what a field computes is C01)'),
+    'C09': ('Theorems: composing layer bags is associative on outputs and virtual sets (AntiSet intersection laws, substitution composes), so any bracketing '
+            'of a chain flattens to the left fold; real chains are rebuilt under random bracketings (nested Chain, LazyChain, >>) and compared field by field, '
+            'with the same model as C02.',
+            'associativity is proved for outputs / virtual names / persistent names; optional flags and loopback contexts are compared by the correspondence only'),
+    'C10': ('Theorem for every chain of invertible (with a private parameter shared by forward and inverse), inherit-all, inherit-list, forward-only and cache '
+            'layers: threading the contexts through the connections and reversing computes forward fields in order ; f ; inverses in reverse order, each '
+            'with its own layer\'s parameter value; a forward-only layer anywhere rejects. _decorate / _wrap / _loopback of real chains are compared with the model.',
+            'one forward field, one backward field and one private parameter per layer; Inverse._wrap and ChainContext.reverse are tied by whole-body '
+            'translator patterns (a change there is reported without a concrete input unless the single-field harness exhibits it)'),
+    'C12': ('Theorems on a model of the two-level content-addressed store at the granularity of single file-system mutations: for every interleaving of process '
+            'steps, process deaths, loss of any blobs, loss or truncation of any index files and new processes, every answered call returns the value of its '
+            'entry and no write meets a conflicting index; a hit names only present blobs; an uninterrupted call always ends with the entry readable. The real '
+            'store is run with every mutator intercepted: the tree before each mutation (checked against real kills), undamaged and under fault sets, is given '
+            'to fresh pipelines and compared with the model and with a cache-free oracle.',
+            'tarn is a trusted dependency that is exercised, not translated; the tie is the abstraction of real directory trees; a process death keeps the page '
+            'cache (a machine crash that loses renamed data is outside); concurrency of writers is outside C12; recovery is proved for entries whose computation '
+            'reads no other disk entry (stacked caches are covered by the safety theorem and the correspondence)'),
+    'C13': ('Theorems: the regenerated _detect_impure walk rejects exactly the graphs with an ImpureEdge reachable through parents from a cached output, for all '
+            'DAGs; an impure edge has no static hash, so every keyed layer above it fails to build. Random pipelines with impure fields and every cache / keyed '
+            'layer kind are built on the real code and compared (accepted vs rejected, and that impure functions run on every call when allowed).',
+            'Filter / GroupBy / Join above an impure field are decided by the translated _hash_graph fact plus the harness, not by the walk theorem'),
+    'C14': ('Theorems on a relational model of Merge: the id table is a function (an id twice is rejected at construction), the merged ids are the sorted union, '
+            'every id is routed to the branch that owns it and only that branch runs (regenerated SwitchEdge generators). Real Merge layers over generated id '
+            'sets and field sets are compared.',
+            'field intersection and the persistent-field rules are compared by the correspondence only'),
+    'C15': ('Theorems: Filter keeps exactly the ids whose predicate holds, in order, for every predicate and id list; keep / drop are the two membership '
+            'predicates; CheckIds passes known ids unchanged and rejects the others (regenerated CheckIdsEdge._evaluate); other fields are untouched. Real '
+            'Filter / CheckIds layers are compared on generated id sets and truth tables.',
+            'predicates are total functions given as tables; a predicate that raises is covered by C04/F8'),
+    'C16': ('Theorems on the relational model of Join over the REGENERATED ids_maker / id_maker: the joined ids per mode, a key twice on one side is rejected, '
+            'each id is served from the sides that have it and, after the repair, only in the modes that keep that side (F6 refuted on the pinned body). Real Join '
+            'layers over generated key tables in all four modes are compared.',
+            'composite keys enter through an independent re-implementation of to_hash_id in the harness'),
+    'C17': ('Theorems: GroupBy partitions the ids by key (every id in exactly one group, groups sorted, members sorted); Split produces each new id once or is '
+            'rejected, and maps it back to its source id and part. Real GroupBy / Split layers are compared on generated tables.',
+            'the RAM cache inside GroupBy is C04/C08; Split\'s interface class is exercised through the layer only'),
+    'C18': ('Theorems on the name-level model: an output with an unreachable input is dropped silently exactly when it and every user on the path are optional, '
+            'otherwise compiling raises a DependencyError naming it; caches make what they touch optional. The outcome (field list or error with the missing names) '
+            'of random stacks is compared with GraphCompiler on the real code.',
+            'same model as C02 (hand-written, validated); the text of error messages is not compared beyond the missing names'),
+    'C19': ('Theorems: the copy is the same graph over the pickled store (RAM caches emptied by the REGENERATED MemoryCache.__reduce__, disk caches the same); for every '
+            'graph and call meeting call_ok, every invariant-respecting store and interference, Graph.call and Graph.get_hash on the copy\'s store finish with the same '
+            'value and the same node hash as on the original\'s (new refinement theorem for get_hash); no edge of the listed layer kinds holds a library-owned lambda or '
+            'closure and MemoryCache is the only class with a pickling hook (regenerated tables). Random pipelines are pickled on the real code and compared.',
+            'that pickle copies hook-free objects attribute by attribute is assumed; Graph.hash() of a copy is not covered (see DESIGN.md); Split and Join still hold '
+            'local callables (not among the layer kinds C19 lists)'),
+    'C20': ('Theorems: a memoised depth-first traversal visits every node once and makes at most |edges| + 1 calls for every DAG; the path-enumerating traversal and the '
+            'tuple hashing of a k-layer crop stack are exponential (lower bounds); the REGENERATED traversal shapes of validate_graph, count_entries and _detect_impure '
+            'are Memo after the repair. Python-level call counts of compile and call are measured on stacks of growing depth.',
+            'F4b (RAM cache keys are nested tuples hashed recursively: exponential in a crop stack) is a known finding; wall-clock time is not compared, only call counts'),
 }
 
 
@@ -64,8 +121,8 @@ def main():
                      'kind_free_text': 'Coq 8.16.1 development: executable model (Model/), regenerated kernels (Gen/), proofs (Proofs/), '
                                        'property theorems (Props/), generated case shards (Run/)'}],
         'checks': [], 'not_applicable': [],
-        'notes': 'Three unguarded "fix:" commits in /repo (F2 624b02f, F1 155c61c, F4a 7524fb1) are recorded in known_findings.json; '
-                 'see DESIGN.md sections 7 and 11.',
+        'notes': 'Six unguarded "fix:" commits in /repo (F2 624b02f, F1 155c61c, F4a 7524fb1, F8-truncation a19c1d0, F6 4bbd446, F5 2f0c7d8) and the '
+                 'known findings F3, F4b, F8 are recorded in known_findings.json; see DESIGN.md sections 7 and 11.',
     }
     for p in props:
         pid = p['id']
